@@ -159,6 +159,9 @@ impl Captured {
         if matches!(s.layout, Layout::Blocks { .. }) {
             engine::witness("block_structured_paths");
         }
+        if matches!(s.layout, Layout::Long { .. }) {
+            engine::witness("long_structured_paths");
+        }
         let chk = OpsCheck {
             exact_indices: self.0 == Which::C11,
             normal_form: self.0 == Which::C09,
@@ -328,10 +331,20 @@ impl Prop for Captured {
             Tier::Thorough => block_layouts(4, 1).into_iter().chain(block_layouts(5, 2)).chain(block_layouts(4, 3)).collect(),
         };
         let algs2: Vec<Algorithm> = if self.0 == Which::C03 { vec![Algorithm::Myers, Algorithm::Lcs] } else { ALGS.to_vec() };
-        for alg in algs2 {
+        for alg in algs2.clone() {
             for layout in &bl {
                 let (n, m) = layout_lens(layout, 0, 0);
                 v.push(Shape { alg, n, m, layout: *layout, entry: CapEntry::CaptureDiff, clock: false });
+            }
+        }
+        // long structured families (single path each) through capture_diff
+        for alg in algs2 {
+            for layout in long_layouts(tier == Tier::Thorough) {
+                let (n, m) = layout_lens(&layout, 0, 0);
+                if alg == Algorithm::Lcs && n * m > 60_000 {
+                    continue;
+                }
+                v.push(Shape { alg, n, m, layout, entry: CapEntry::CaptureDiff, clock: false });
             }
         }
         v
@@ -392,15 +405,15 @@ impl Prop for Captured {
         }
         let max = match tier { Tier::Quick => 4, Tier::Thorough => 6 };
         let required: Vec<&'static str> = match self.0 {
-            Which::C02 => vec!["paths_with_identical_inputs", "paths_where_the_deadline_fired", "paths_with_replace_op"],
-            Which::C03 => vec!["paths_with_nontrivial_lcs"],
-            Which::C09 => vec!["paths_where_the_deadline_fired", "paths_with_replace_op", "paths_that_took_a_compaction_swap"],
-            Which::C11 => vec!["paths_that_took_a_compaction_swap", "paths_with_replace_op"],
+            Which::C02 => vec!["paths_with_identical_inputs", "paths_where_the_deadline_fired", "paths_with_replace_op", "long_structured_paths"],
+            Which::C03 => vec!["paths_with_nontrivial_lcs", "long_structured_paths"],
+            Which::C09 => vec!["paths_where_the_deadline_fired", "paths_with_replace_op", "paths_that_took_a_compaction_swap", "long_structured_paths"],
+            Which::C11 => vec!["paths_that_took_a_compaction_swap", "paths_with_replace_op", "long_structured_paths"],
         };
         Meta {
             functions,
             bounds: format!(
-                "{} x range lengths n,m in 0..={} (plus lopsided whole-slice inputs up to 6 (thorough 7) items a side with n+m<=9 quick / 11 thorough through capture_diff) x layouts {{whole slices, padded slices (1,1 / 2,1), offset lookups at (3,1)}} x entry points {}; symbolic items over an unbounded alphabet; plus block-structured inputs (up to 4 blocks of 2 items a side over 3 block types, thorough also block lengths 1, 3 and 5 blocks){}",
+                "{} x range lengths n,m in 0..={} (plus lopsided whole-slice inputs up to 6 (thorough 7) items a side with n+m<=9 quick / 11 thorough through capture_diff) x layouts {{whole slices, padded slices (1,1 / 2,1), offset lookups at (3,1)}} x entry points {}; symbolic items over an unbounded alphabet; plus block-structured inputs (up to 4 blocks of 2 items a side over 3 block types, thorough also block lengths 1, 3 and 5 blocks) and the long structured families of common.rs::long_layouts (about 30 (thorough 53) inputs of 40..600 items a side, one path each: repeated-item stretches between unique items, unique items moved across a repetitive body, mostly different inputs with few common items, chains, runs / periodic stretches growing by a period, doubled items / blocks, every 16th item replaced; some as sub-ranges at unequal offsets){}",
                 if self.0 == Which::C03 { "Myers and LCS" } else { "3 algorithms" },
                 max,
                 match self.0 {
